@@ -488,6 +488,10 @@ impl Worker {
     }
 }
 
+pub fn current_version() -> i64 {
+    VER.load(Ordering::SeqCst)
+}
+
 pub fn reset_versions() {
     VER.store(0, Ordering::SeqCst);
 }
